@@ -1,7 +1,8 @@
 ------------------------------- MODULE Ticket -------------------------------
 (* C44 - session resumption cannot be forged or used to bypass policy.               *)
 (*                                                                                   *)
-(* A server lives through epochs e = [key, tickets, cache, max, suites, auth, rule]: *)
+(* A server lives through epochs e = [key, tickets, cache, max, suites, auth, rule,  *)
+(* ca]:                                                                              *)
 (*   key      number of the session-ticket key in use                                 *)
 (*   tickets  RFC 5077 tickets enabled                                                *)
 (*   cache    0 = session-id cache disabled, n = cache generation n (a new generation *)
@@ -16,10 +17,20 @@
 (*            rule.grade narrows its versions, rule.chacha enables suite CH for it.    *)
 (*            A rule reload is an epoch change; a connection to the other SNI / VIP    *)
 (*            (same ticket key, same cache) is a connection with c.sni # rule.sni.     *)
+(*   ca       the client CA in force (1 = CA "A", 2 = CA "B"): Config.ClientCAs and   *)
+(*            the rule's ClientCAs                                                    *)
+(* c.cert is the CLASS of certificate the client presents when asked: "none", "A" /   *)
+(* "B" (leaf issued by that CA: valid under the current CA or under a former one),    *)
+(* "fake" (self-made, names the current CA as issuer, signed by an unrelated key).    *)
+(* A declined offer must lead to an ORDINARY full handshake: every check a fresh      *)
+(* handshake performs (certificate requested, present, chain verified against the     *)
+(* CURRENT CA) is due again; a session whose stored certificate no longer verifies    *)
+(* must not be resumed.                                                               *)
 (* One client makes connections c = [kind, max, suites, cert, noticket, sni]; after a *)
 (* handshake it keeps what the server handed out (saved):                             *)
 (*   [kind "ticket"|"sid", key (issuing ticket key | cache generation), vers, suite,  *)
-(*    cert (session carries a client certificate), from (step of issue)]              *)
+(*    cert (class of the client certificate the session carries, "none" if none),     *)
+(*    from (step of issue)]                                                           *)
 (* and may offer it later, unmodified or tampered with.                               *)
 (*                                                                                   *)
 (* Layer P  MayResume: the conditions under which the property allows the server to   *)
@@ -31,7 +42,12 @@
 (*          (session has a client certificate and policy is "none").                  *)
 EXTENDS Negotiate
 
-NoSess == [kind |-> "none", key |-> 0, vers |-> 0, suite |-> "", cert |-> FALSE, from |-> 0]
+NoSess == [kind |-> "none", key |-> 0, vers |-> 0, suite |-> "", cert |-> "none", from |-> 0]
+CertClasses == {"none", "A", "B", "fake"}
+CAName(n) == IF n = 2 THEN "B" ELSE "A"
+\* verifies against the CA in force
+Trusted(x, e) == x = CAName(e.ca)
+HasCert(s) == s.cert # "none"
 
 TicketTampers == {"flip-iv0", "flip-iv15", "flip-vers", "flip-suite", "flip-mslen", "flip-ms0", "flip-msN",
                   "flip-ncert", "flip-ctN", "flip-mac0", "flip-macN", "trunc-1", "trunc-mac", "trunc-47",
@@ -60,18 +76,22 @@ OfferedKind(c, saved, offer) == IF Sent(c, saved, offer) THEN saved.kind ELSE "n
 \* session_ticket extension present in the hello
 TicketExt(c, ok) == c.kind = "go" \/ ok = "ticket" \/ (ok # "sid" /\ ~c.noticket)
 
+\* certificate the client actually sends when asked: bfe_tls's own client code (raw) only sends a
+\* certificate whose issuer name is in the CertificateRequest, crypto/tls sends what it is given
+Presented(c, e) == IF c.kind = "raw" /\ c.cert \notin {CAName(e.ca), "fake"} THEN "none" ELSE c.cert
+
 \* ------------------------------------------------------------------ full handshake (Layer P and M)
 \* (a = Allowed(NegCl(c), NegSv(e)) and m = Mech(NegCl(c), NegSv(e)) are passed in: evaluated once per step)
 FullPa(a, c, e) ==
-  IF a.refuse # "must" /\ EffAuth(c, e) = "require" /\ ~c.cert
+  IF a.refuse # "must" /\ EffAuth(c, e) = "require" /\ ~Trusted(Presented(c, e), e)
   THEN [refuse |-> "must", why |-> "clientcert", vers |-> 0, suites |-> {}, alpn |-> {}]
   ELSE a
 FullMm(m, c, e) ==
-  IF m.done /\ EffAuth(c, e) = "require" /\ ~c.cert THEN Refuse("bad_certificate", "server") ELSE m
+  IF m.done /\ EffAuth(c, e) = "require" /\ ~Trusted(Presented(c, e), e) THEN Refuse("bad_certificate", "server") ELSE m
 FullP(c, e) == FullPa(Allowed(NegCl(c), NegSv(e)), c, e)
 FullM(c, e) == FullMm(Mech(NegCl(c), NegSv(e)), c, e)
-\* the full handshake leaves a client certificate with the session
-CertGiven(c, e) == EffAuth(c, e) # "none" /\ c.cert
+\* the certificate a completed full handshake leaves with the session ("request" does not verify it)
+CertGiven(c, e) == IF EffAuth(c, e) = "none" THEN "none" ELSE Presented(c, e)
 
 \* ------------------------------------------------------------------ Layer P: when may an offer be honoured
 WhyNotA(a, c, e, saved, offer, tamper) ==
@@ -84,14 +104,19 @@ WhyNotA(a, c, e, saved, offer, tamper) ==
   ELSE IF a.refuse = "must" \/ a.vers # saved.vers THEN "version"
   ELSE IF saved.suite \notin Range(c.suites) THEN "suite-not-offered"
   ELSE IF saved.suite \notin EnabledSuites(c, e) THEN "suite-not-enabled"
-  ELSE IF EffAuth(c, e) = "require" /\ ~saved.cert THEN "clientauth"
+  ELSE IF EffAuth(c, e) = "require" /\ ~HasCert(saved) THEN "clientauth"
+  ELSE IF EffAuth(c, e) = "require" /\ ~Trusted(saved.cert, e) THEN "client-cert-untrusted"
   ELSE ""
 WhyNot(c, e, saved, offer, tamper) == WhyNotA(Allowed(NegCl(c), NegSv(e)), c, e, saved, offer, tamper)
 MayResume(c, e, saved, offer, tamper) == WhyNot(c, e, saved, offer, tamper) = ""
 
 \* ------------------------------------------------------------------ Layer M
 \* checkForResumption additionally declines when the session has a client certificate and policy is "none"
-MechDeclines(c, e, saved) == saved.cert /\ EffAuth(c, e) = "none"
+MechDeclines(c, e, saved) == HasCert(saved) /\ EffAuth(c, e) = "none"
+\* bfe (like crypto/tls) decides to resume and then re-verifies the stored chain: a session whose
+\* certificate no longer verifies aborts the connection (bad_certificate).  Layer P allows both that and
+\* an ordinary full handshake - never a completed resumption.
+MechAborts(why) == why = "client-cert-untrusted"
 MechResume(c, e, saved, offer, tamper) == MayResume(c, e, saved, offer, tamper) /\ ~MechDeclines(c, e, saved)
 
 \* session the client holds after the connection (res = resumed, fm = full-handshake outcome)
@@ -109,11 +134,12 @@ SavedAfterR(res, fm, c, e, saved, offer, tamper, n) ==
 ConnOut(c, e, saved, offer, tamper, n) ==
   LET a == Allowed(NegCl(c), NegSv(e))
       fp == FullPa(a, c, e)
-      fm == FullMm(Mech(NegCl(c), NegSv(e)), c, e)
       why == WhyNotA(a, c, e, saved, offer, tamper)
+      fm == IF MechAborts(why) THEN Refuse("bad_certificate", "server") ELSE FullMm(Mech(NegCl(c), NegSv(e)), c, e)
       res == why = "" /\ ~MechDeclines(c, e, saved)
   IN [expP |-> [resume |-> IF why = "" THEN "may" ELSE "no",
                 whynot |-> why,
+                mayabort |-> MechAborts(why),
                 sess |-> saved,
                 sent |-> Sent(c, saved, offer),
                 full |-> fp,
@@ -122,7 +148,7 @@ ConnOut(c, e, saved, offer, tamper, n) ==
                 done |-> res \/ fm.done,
                 vers |-> IF res THEN saved.vers ELSE fm.vers,
                 suite |-> IF res THEN saved.suite ELSE fm.suite,
-                peer |-> IF res THEN saved.cert ELSE (fm.done /\ CertGiven(c, e)),
+                peer |-> IF res THEN HasCert(saved) ELSE (fm.done /\ CertGiven(c, e) # "none"),
                 alert |-> IF res THEN "" ELSE fm.alert,
                 saved |-> SavedAfterR(res, fm, c, e, saved, offer, tamper, n)]]
 
@@ -140,11 +166,12 @@ StepOK(c, e, saved, offer, tamper) ==
                       /\ saved.vers \in MutualVers(NegCl(c), NegSv(e))
                       /\ \A v \in MutualVers(NegCl(c), NegSv(e)) : v <= saved.vers
   \* never skips a client-certificate requirement
-                      /\ (EffAuth(c, e) = "require" => (saved.cert /\ o.expM.peer))
-                      /\ (RuleFor(c, e) /\ e.rule.clientauth => saved.cert)
+                      /\ (EffAuth(c, e) = "require" => (Trusted(saved.cert, e) /\ o.expM.peer))
+                      /\ (RuleFor(c, e) /\ e.rule.clientauth => Trusted(saved.cert, e))
   \* declined offers end in the ordinary full handshake
   /\ ~o.expM.resume => /\ (o.expM.done => o.expP.full.refuse # "must")
-                       /\ (~o.expM.done => o.expP.full.refuse # "no")
+                       /\ (~o.expM.done => (o.expP.full.refuse # "no" \/ o.expP.mayabort))
+                       /\ (o.expM.done /\ EffAuth(c, e) = "require" => Trusted(Presented(c, e), e))
                        /\ (o.expM.done => o.expM.vers = o.expP.full.vers /\ o.expM.suite \in o.expP.full.suites)
                        /\ (o.expM.done /\ EffAuth(c, e) = "require" => o.expM.peer)
 =============================================================================
